@@ -33,7 +33,7 @@ ASSUMPTIONS = [
 ]
 ANCHORS = ["dagrt.exec_numpy:NumpyInterpreter.run_single_step", "dagrt.exec_numpy:NumpyInterpreter.run",
            "dagrt.language:ExecutionController.__call__"]
-MIN_NONTRIVIAL = {"quick": 2500, "thorough": 40000}
+MIN_NONTRIVIAL = {"quick": 2500, "thorough": 224000}
 REQUIRED_COUNTERS = {"quick": ["faults_injected_interpreter", "faults_injected_generated", "exception_identity_checked",
                                "post_fault_values_checked", "resume_steps_compared"],
                      "thorough": ["faults_injected_interpreter", "faults_injected_generated",
@@ -42,7 +42,7 @@ SHARD_TIMEOUT = {"quick": 900, "thorough": 3400}
 
 
 def plan(tier, seed):
-    per = 30 if tier == "quick" else 400
+    per = 30 if tier == "quick" else 3200
     return [{"seed": f"C11:{seed}:{k}", "count": per} for k in range(16)]
 
 
